@@ -84,6 +84,107 @@ def toy2_class():
     return Toy2
 
 
+def toy2b_class():
+    """Two decoupled Toy1 sectors (both fields change across the wall), with optional relabelling of field space:
+    user fields x relate to the internal (phi, s) by  phi = signs[0]*(x[perm[0]] - shift[perm[0]]), s = signs[1]*(x[perm[1]] - shift[perm[1]])."""
+    WallGo = _wg()
+
+    class Toy2b(WallGo.EffectivePotential):
+        fieldCount = 2
+        effectivePotentialError = 1e-15
+
+        def __init__(self, D=0.1, E=0.06, lam=0.1, T0=1.0, a=3.0, D2=0.1, E2=0.06, lam2=0.1, T02=0.98, u=1.0,
+                     perm=(0, 1), signs=(1.0, 1.0), shift=(0.0, 0.0)):
+            self.D, self.E, self.lam, self.T0, self.a, self.u = D, E, lam, T0 * u, a, u
+            self.D2, self.E2, self.lam2, self.T02 = D2, E2, lam2, T02 * u
+            self.perm, self.signs, self.shift = tuple(perm), tuple(signs), tuple(s_ * u for s_ in shift)
+
+        def internal(self, fields):
+            x = [fields.getField(0), fields.getField(1)]
+            phi = self.signs[0] * (x[self.perm[0]] - self.shift[self.perm[0]])
+            s = self.signs[1] * (x[self.perm[1]] - self.shift[self.perm[1]])
+            return phi, s
+
+        def user(self, phi, s):
+            v = [0.0, 0.0]
+            v[self.perm[0]] = self.signs[0] * phi + self.shift[self.perm[0]]
+            v[self.perm[1]] = self.signs[1] * s + self.shift[self.perm[1]]
+            return v
+
+        def evaluate(self, fields, temperature):
+            phi, s = self.internal(fields)
+            T = np.asarray(temperature)
+            return (self.D * (T ** 2 - self.T0 ** 2) * phi ** 2 - self.E * T * phi ** 3 + self.lam / 4 * phi ** 4
+                    + self.D2 * (T ** 2 - self.T02 ** 2) * s ** 2 - self.E2 * T * s ** 3 + self.lam2 / 4 * s ** 4 - self.a * T ** 4)
+
+        @staticmethod
+        def _pb(D, E, lam, T0, T):
+            return (3 * E * T + np.sqrt(9 * E ** 2 * T ** 2 - 8 * lam * D * (T ** 2 - T0 ** 2))) / (2 * lam)
+
+        def broken(self, T):
+            return self._pb(self.D, self.E, self.lam, self.T0, T), self._pb(self.D2, self.E2, self.lam2, self.T02, T)
+
+        def dV(self, T):
+            """V(broken) - V(symmetric)"""
+            p, s = self.broken(T)
+            return (self.D * (T ** 2 - self.T0 ** 2) * p ** 2 - self.E * T * p ** 3 + self.lam / 4 * p ** 4
+                    + self.D2 * (T ** 2 - self.T02 ** 2) * s ** 2 - self.E2 * T * s ** 3 + self.lam2 / 4 * s ** 4)
+
+        def T1(self):
+            def t1(D, E, lam, T0):
+                return T0 * math.sqrt(8 * lam * D / (8 * lam * D - 9 * E ** 2))
+            return min(t1(self.D, self.E, self.lam, self.T0), t1(self.D2, self.E2, self.lam2, self.T02))
+
+        def Tsym(self):
+            return max(self.T0, self.T02)
+
+        def Tc(self):
+            from scipy.optimize import brentq
+            return brentq(self.dV, self.Tsym() * 1.0001, self.T1() * 0.9999)
+
+    return Toy2b
+
+
+def toy2c_class():
+    """Two-step (singlet-like) model: high-T phase (0, s_h(T)), low-T phase (phi_b(T), 0), portal coupling kap/2 phi^2 s^2.
+    V = D(T^2-T0^2)phi^2 - E T phi^3 + lam/4 phi^4 + cs(T^2-Ts^2)/2 s^2 + ls/4 s^4 + kap/2 phi^2 s^2 - a T^4.  Relabelling as in Toy2b."""
+    Toy2b = toy2b_class()
+
+    class Toy2c(Toy2b):
+        def __init__(self, D=0.1, E=0.06, lam=0.1, T0=1.0, a=3.0, cs=0.05, Ts=1.6, ls=0.5, kap=0.3, u=1.0,
+                     perm=(0, 1), signs=(1.0, 1.0), shift=(0.0, 0.0)):
+            self.D, self.E, self.lam, self.T0, self.a, self.u = D, E, lam, T0 * u, a, u
+            self.cs, self.Ts, self.ls, self.kap = cs, Ts * u, ls, kap
+            self.perm, self.signs, self.shift = tuple(perm), tuple(signs), tuple(s_ * u for s_ in shift)
+
+        def evaluate(self, fields, temperature):
+            phi, s = self.internal(fields)
+            T = np.asarray(temperature)
+            return (self.D * (T ** 2 - self.T0 ** 2) * phi ** 2 - self.E * T * phi ** 3 + self.lam / 4 * phi ** 4
+                    + self.cs * (T ** 2 - self.Ts ** 2) / 2 * s ** 2 + self.ls / 4 * s ** 4 + self.kap / 2 * phi ** 2 * s ** 2 - self.a * T ** 4)
+
+        def phiB(self, T):
+            return self._pb(self.D, self.E, self.lam, self.T0, T)
+
+        def sH(self, T):
+            return np.sqrt(self.cs * (self.Ts ** 2 - T ** 2) / self.ls)
+
+        def VLow(self, T):
+            p = self.phiB(T)
+            return self.D * (T ** 2 - self.T0 ** 2) * p ** 2 - self.E * T * p ** 3 + self.lam / 4 * p ** 4 - self.a * T ** 4
+
+        def VHigh(self, T):
+            m = self.cs * (T ** 2 - self.Ts ** 2)
+            return -m ** 2 / (4 * self.ls) - self.a * T ** 4
+
+        def Tc(self):
+            from scipy.optimize import brentq
+            hi = min(self.T0 * math.sqrt(8 * self.lam * self.D / (8 * self.lam * self.D - 9 * self.E ** 2)), self.Ts) * 0.999
+            return brentq(lambda T: self.VLow(T) - self.VHigh(T), self.T0 * 1.001, hi)
+
+    return Toy2c
+
+
 _cache: dict = {}
 
 
@@ -98,6 +199,10 @@ def make_thermo(kind="toy1", params=None, TnFrac=0.6, tminFrac=0.6, tmaxFrac=1.6
     from WallGo.thermodynamics import Thermodynamics
     from WallGo.fields import Fields
     warnings.simplefilter("ignore")
+    if kind == "toy2b":
+        return _make_thermo_2b(params, TnFrac, tminFrac, tmaxFrac, rTol, Tscale, ck)
+    if kind == "toy2c":
+        return _make_thermo_2c(params, TnFrac, tminFrac, tmaxFrac, rTol, Tscale, ck)
     Toy1 = toy1_class()
     ref = Toy1(**{k: v for k, v in params.items() if k in ("D", "E", "lam", "T0", "a", "u")})
     if kind == "toy1":
@@ -133,6 +238,57 @@ def make_thermo(kind="toy1", params=None, TnFrac=0.6, tminFrac=0.6, tmaxFrac=1.6
     th.freeEnergyLow.tracePhase(tminFrac * Tn, hiL, dT, rTol=rTol)
     th.setExtrapolate()
     info = {"Tc": Tc, "Tn": Tn, "T0": T0, "T1": T1, "dT": dT, "ref": ref}
+    _cache[ck] = (th, model, info)
+    return _cache[ck]
+
+
+def _make_thermo_2b(params, TnFrac, tminFrac, tmaxFrac, rTol, Tscale, ck):
+    WallGo = _wg()
+    from WallGo.thermodynamics import Thermodynamics
+    from WallGo.fields import Fields
+    model = toy2b_class()(**params)
+    u = model.u
+    Tc = model.Tc()
+    Ts0 = model.Tsym()
+    Tn = Ts0 + TnFrac * (Tc - Ts0)
+    Ts = Tscale if Tscale is not None else 0.1 * Ts0
+    pb, sb = (float(x) for x in model.broken(Tn))
+    scales = [0.0, 0.0]
+    scales[model.perm[0]], scales[model.perm[1]] = pb, sb
+    model.configureDerivatives(WallGo.VeffDerivativeSettings(temperatureVariationScale=float(Ts), fieldValueVariationScale=scales))
+    th = Thermodynamics(model, Tn, Fields(model.user(pb, sb)), Fields(model.user(0.0, 0.0)))
+    th.freeEnergyHigh.disableAdaptiveInterpolation()
+    th.freeEnergyLow.disableAdaptiveInterpolation()
+    dT = Ts * rTol ** 0.25
+    th.freeEnergyHigh.tracePhase(max(tminFrac * Tn, Ts0 * 1.02), tmaxFrac * Tn, dT, rTol=rTol)
+    th.freeEnergyLow.tracePhase(tminFrac * Tn, min(tmaxFrac * Tn, model.T1() * 0.98), dT, rTol=rTol)
+    th.setExtrapolate()
+    info = {"Tc": Tc, "Tn": Tn, "T0": Ts0, "T1": model.T1(), "dT": dT, "ref": model}
+    _cache[ck] = (th, model, info)
+    return _cache[ck]
+
+
+def _make_thermo_2c(params, TnFrac, tminFrac, tmaxFrac, rTol, Tscale, ck):
+    WallGo = _wg()
+    from WallGo.thermodynamics import Thermodynamics
+    from WallGo.fields import Fields
+    model = toy2c_class()(**params)
+    Tc = model.Tc()
+    Tn = model.T0 + TnFrac * (Tc - model.T0)
+    Ts = Tscale if Tscale is not None else 0.1 * model.T0
+    pb, sh = float(model.phiB(Tn)), float(model.sH(Tn))
+    scales = [0.0, 0.0]
+    scales[model.perm[0]], scales[model.perm[1]] = pb, sh
+    model.configureDerivatives(WallGo.VeffDerivativeSettings(temperatureVariationScale=float(Ts), fieldValueVariationScale=scales))
+    th = Thermodynamics(model, Tn, Fields(model.user(pb, 0.0)), Fields(model.user(0.0, sh)))
+    th.freeEnergyHigh.disableAdaptiveInterpolation()
+    th.freeEnergyLow.disableAdaptiveInterpolation()
+    dT = Ts * rTol ** 0.25
+    T1 = model.T0 * math.sqrt(8 * model.lam * model.D / (8 * model.lam * model.D - 9 * model.E ** 2))
+    th.freeEnergyHigh.tracePhase(max(tminFrac * Tn, model.T0 * 1.02), min(tmaxFrac * Tn, model.Ts * 0.98), dT, rTol=rTol)
+    th.freeEnergyLow.tracePhase(tminFrac * Tn, min(tmaxFrac * Tn, T1 * 0.98), dT, rTol=rTol)
+    th.setExtrapolate()
+    info = {"Tc": Tc, "Tn": Tn, "T0": model.T0, "T1": T1, "dT": dT, "ref": model}
     _cache[ck] = (th, model, info)
     return _cache[ck]
 
